@@ -37,11 +37,12 @@ def run(rep, tier):
     rep.rule("R-AFF-COLLOC", "Radau's interpolant, reconstructed from RADAU::interpolate and the stored blocks, passes through y_old and y_old + Z_i at theta = 0, c1, c2, 1: it is the collocation polynomial")
     radau.r_radau_dense(rep, f)
     import dense
-    rep.rule("R-BDF-DENSE", "BDF dense block: writer and reader agree on which backward differences enter the interpolant for every order")
-    dense.r_bdf_dense(rep, f)
     rep.rule("R-BDF-INTERP", "BDF: with the dense block solve() stores, interpolate() passes through the last k+1 solution values: u(x) = y_new, u(xold) = y_old, u(x - m h) = y_(n+1-m)")
     import bdfx
     bdfx.r_bdf_interp(rep, f)
+    rep.rule("R-BDF-DENSE", "BDF dense block: writer and reader agree on which backward differences enter the interpolant for every order")
+    interp_decided = any(r_ == "R-BDF-INTERP" for r_, k_, d_ in rep.discharged) and not any(x["rule"] == "R-BDF-INTERP" for x in rep.inconclusive)
+    dense.r_bdf_dense(rep, f, semantic_backup=interp_decided)
     rep.explanation = ("Proof-level for RK4, RK23, DOPRI5, DOP853: the polynomial the interpolant evaluates is reconstructed from X::interpolate and the "
                        "coefficient blocks X::solve stores, and the continuous order conditions are discharged coefficient-wise in theta for all trees "
                        "up to the advertised dense order q (3, 3, 4, 7). Not decided: error constants; BDF/Radau numerical accuracy after step changes.")
